@@ -227,6 +227,9 @@ var templates = []struct {
 	{"exit", "v = 2\nw = \"top2\"\na = \"s\"\nfor i in [1, 2] {\n x = i\n if i == 2 { exit() }\n}"},
 	{"ok", "probe(\"names\", v, w, x, i, a, b, c, k1, j, l, m)"},
 	{"ok", "if v == nil { probe(\"v is nil\") } else { probe(\"v has a value\", v) }\nfor q in [1] { probe(\"inner\", w, x) }"},
+	// literals that are written through: every run (and every pass of a loop) starts from the literal as written
+	{"ok", "x = [[1], [2]]\nx[0][0] += 10\nprobe(\"x\", x)\nn = 0\nfor e in [[1], [2]] {\n e[0] *= 3\n n += e[0]\n}\nprobe(\"n\", n)"},
+	{"ok", "hits = [0]\nif len(message) > 3 { hits[0] += 1 }\nm = {\"k\": {\"c\": 0}}\nm[\"k\"][\"c\"] += len(message)\nprobe(\"hits\", hits, m)\nd = 10 / (2 - hits[0])"},
 	// the same grok expression text under different alias definitions (and under none: see badLoads)
 	{"ok", "add_pattern(\"tok\", \"[a-z]+\")\nok = grok(_, \"%{tok:val}\")\nprobe(\"tok\", ok, val)"},
 	{"ok", "add_pattern(\"tok\", \"\\\\d+\")\nok = grok(_, \"%{tok:val}\")\nprobe(\"tok\", ok, val)"},
@@ -429,6 +432,11 @@ func TestHistories(t *testing.T) {
 		// category first, then a member: the fixed templates do not crowd out parses and generated programs
 		idx := make([]int, n)
 		for k := range idx {
+			if k > 0 && rapid.IntRange(0, 3).Draw(t, "again") == 0 {
+				// an operation of this history once more (a loaded script is run many times)
+				idx[k] = idx[rapid.IntRange(0, k-1).Draw(t, "which")]
+				continue
+			}
 			cat := cats[rapid.IntRange(0, len(cats)-1).Draw(t, "category")]
 			idx[k] = cat[rapid.IntRange(0, len(cat)-1).Draw(t, "member")]
 		}
